@@ -2,8 +2,8 @@
    Statements only; the ledger rule (cert, deposits, refunds, Balanced, balanced) and the model of the builder
    slice are in PyC.Balance, proofs in PyC.BalanceProofs.  Notation: content m p n = quantity of asset (p, n)
    in bundle m (0 when absent); sum_coin / sum_tok / sum_content = sums over a list; wfv / wfm = dict keys unique. *)
-From Coq Require Import ZArith NArith List Bool.
-From PyC Require Import Base Dict Value ValueProofs Balance BalanceProofs.
+From Coq Require Import ZArith NArith List Bool Permutation.
+From PyC Require Import Base Dict Value ValueProofs Balance BalanceProofs BalanceSel BalanceSelProofs.
 Import ListNotations.
 Open Scope Z_scope.
 
@@ -86,6 +86,51 @@ Print Assumptions C06_balanced_any_packing.
 Theorem C06_explicit_inputs_once : forall l, consistent l -> NoDup (map u_in (dedup_utxos l)).
 Proof. exact dedup_utxos_nodup. Qed.
 Print Assumptions C06_explicit_inputs_once.
+
+(* the UTxO selection step of build () (model BalanceSel.v): offered_pool = the candidates (potential inputs, then the
+   chain's UTxOs at the input addresses, in that order) that are neither explicit inputs, nor seen before, nor excluded;
+   selection_ok pool sel = every transaction input the selector returned names a member of that pool and none is
+   returned twice; inputs_after_selection = the explicit inputs (each once) followed by the selector's answer.
+   For EVERY answer within that contract self.inputs has pairwise distinct transaction inputs, all of them explicit
+   inputs or candidates — the premise of C06_balanced.  (That the modelled selectors keep the contract for every
+   stream of random choices is C14_lf / C14_ri; that the real ones do is checked on every run.) *)
+Theorem C06_selected_inputs_distinct : forall explicit excluded cands sel,
+  consistent (explicit ++ cands) ->
+  selection_ok (offered_pool explicit excluded cands) sel = true ->
+  NoDup (map u_in (inputs_after_selection explicit (offered_pool explicit excluded cands) sel))
+  /\ (forall u, In u (inputs_after_selection explicit (offered_pool explicit excluded cands) sel) -> In u (explicit ++ cands)).
+Proof. exact selected_inputs_nodup. Qed.
+Print Assumptions C06_selected_inputs_distinct.
+
+(* C06_balanced_selected: build () with explicit inputs, potential inputs, input addresses and excluded inputs, the chain's
+   UTxO map a function of the transaction input: for EVERY answer of the selectors within the contract (and every order
+   in which build () then sorts self.inputs) the returned body satisfies the ledger balance with its inputs resolved
+   through the UTxO map.  No distinctness premise is left: it follows from the contract. *)
+Theorem C06_balanced_selected : forall ovf minada est st merge umap explicit excluded potential addrs sel ins outs fee0 bins outs' fee',
+  NoDup (map u_in umap) -> Forall wfv (map u_val umap) -> incl explicit umap -> incl potential umap ->
+  Forall wfv (map snd outs) -> wfm (b_mint st) ->
+  selection_ok (offered_pool explicit excluded (candidates umap potential addrs)) sel = true ->
+  Permutation ins (inputs_after_selection explicit (offered_pool explicit excluded (candidates umap potential addrs)) sel) ->
+  build_tail minada (pack_model ovf) est st merge ins outs fee0 = inr (bins, outs', fee') ->
+  exists vals, resolve_all umap bins = Some vals
+    /\ balanced (ledger_params st) vals (b_mint st) (b_wdrl st) (b_certs st) (b_props st) (b_donation st)
+                (map snd outs') fee' = true.
+Proof. exact build_selected_balanced_chain. Qed.
+Print Assumptions C06_balanced_selected.
+
+(* the contract is needed: a selector that names one member of the pool twice makes build () return a body whose outputs
+   + fee exceed its inputs by exactly that UTxO (concrete scenario with mint, burn, withdrawal, certificates, proposal,
+   donation; the UTxO carries 5 ADA) *)
+Theorem C06_selection_contract_needed :
+  exists minada pack est st merge umap explicit pool sel outs bins outs' fee' vals,
+    pool = offered_pool explicit [] (candidates umap [] [wit_addr]) /\ NoDup (map u_in umap) /\ incl explicit umap
+    /\ forallb (has_in pool) sel = true /\ selection_ok pool sel = false
+    /\ build_tail minada pack est st merge (inputs_after_selection explicit pool sel) outs 0 = inr (bins, outs', fee')
+    /\ resolve_all umap bins = Some vals
+    /\ balanced (ledger_params st) vals (b_mint st) (b_wdrl st) (b_certs st) (b_props st) (b_donation st)
+                (map snd outs') fee' = false.
+Proof. exact selection_contract_needed_ex. Qed.
+Print Assumptions C06_selection_contract_needed.
 
 (* partial liveness: ADA-only inputs and outputs, nothing minted; if the provided ADA (inputs + withdrawals -
    deposits - donation) exceeds the outputs by the largest fee the estimator can return plus the largest min-ADA of
